@@ -217,11 +217,33 @@ func (eng *Engine) solve(o *Obligation, timeoutMs int, all bool) {
 		if timeoutMs < ms {
 			ms = timeoutMs
 		}
+		// first the ground part alone (quantified assumptions dropped): fewer
+		// hypotheses, so `unsat` there means the full path is infeasible too,
+		// and without quantifiers the solvers answer definitively
+		var gb strings.Builder
+		gb.WriteString("(set-logic ALL)\n")
+		for _, l := range o.Lines {
+			if strings.Contains(l, "(forall ") || strings.Contains(l, "(exists ") {
+				continue
+			}
+			gb.WriteString(l)
+			gb.WriteByte('\n')
+		}
+		gb.WriteString("(check-sat)\n")
+		ground := write(gb.String(), ".g")
+		if st, sv, tm := race(ground, solvers[:2], ms, "", "/g"); st == "unsat" {
+			o.Status, o.Solver, o.TimeMs = st, sv, tm
+			o.Model = eng.blameInfeasible(o, true, write)
+			return
+		}
 		st, sv, tm := race(full, solvers[:2], ms, "", "")
 		if st == "" {
 			st = "unknown"
 		}
 		o.Status, o.Solver, o.TimeMs = st, sv, tm
+		if st == "unsat" {
+			o.Model = eng.blameInfeasible(o, false, write)
+		}
 		return
 	}
 	if !o.ExpectSat && !all {
@@ -260,6 +282,62 @@ func (eng *Engine) solve(o *Obligation, timeoutMs int, all bool) {
 		}
 	}
 	o.TimeMs = time.Since(start).Milliseconds()
+}
+
+// blameInfeasible finds, for an infeasible path, the first assertion at which
+// the accumulated facts become contradictory (shortest unsatisfiable prefix of
+// the path script, by bisection). It returns "branch: <line>" when that
+// assertion is a branch condition (dead code under the contracts in force) and
+// "assumption: <line>" when it is a fact taken from a contract or invariant.
+func (eng *Engine) blameInfeasible(o *Obligation, ground bool, write func(string, string) string) string {
+	var idx []int // indices of assert lines
+	for i, l := range o.Lines {
+		if strings.HasPrefix(l, "(assert ") {
+			if ground && (strings.Contains(l, "(forall ") || strings.Contains(l, "(exists ")) {
+				continue
+			}
+			idx = append(idx, i)
+		}
+	}
+	unsatUpTo := func(k int) bool { // asserts idx[0..k] included
+		var b strings.Builder
+		b.WriteString("(set-logic ALL)\n")
+		last := idx[k]
+		for i, l := range o.Lines {
+			if i > last {
+				break
+			}
+			if ground && (strings.Contains(l, "(forall ") || strings.Contains(l, "(exists ")) {
+				continue
+			}
+			b.WriteString(l)
+			b.WriteByte('\n')
+		}
+		b.WriteString("(check-sat)\n")
+		f := write(b.String(), fmt.Sprintf(".b%d", k))
+		st, _ := runSolver(context.Background(), solvers[0], f, 2000)
+		if st != "unsat" && st != "sat" {
+			st, _ = runSolver(context.Background(), solvers[1], f, 2000)
+		}
+		return st == "unsat"
+	}
+	if len(idx) == 0 {
+		return ""
+	}
+	lo, hi := 0, len(idx)-1 // invariant: prefix hi is unsat
+	for lo < hi {
+		mid := (lo + hi) / 2
+		if unsatUpTo(mid) {
+			hi = mid
+		} else {
+			lo = mid + 1
+		}
+	}
+	line := o.Lines[idx[hi]]
+	if strings.HasSuffix(line, ";branch") {
+		return "branch: " + line
+	}
+	return "assumption: " + line
 }
 
 // solveAll discharges obligations in parallel, de-duplicated by content.
